@@ -144,6 +144,23 @@ func (s TraitDescs) GetParsableTextUnmarshalable() TraitDescs {
 	return out
 }
 
+// ParsableValuesOf returns, in trait order, the constants of the parsable traits that are
+// defined on the line of the given enum value. Exposed for template use.
+func (s TraitDescs) ParsableValuesOf(v Value) []string {
+	out := make([]string, 0, len(s))
+	for _, t := range s {
+		if !t.Parsable {
+			continue
+		}
+		for _, instance := range t.Traits {
+			if instance.OwningValue.Name == v.Name {
+				out = append(out, instance.Value())
+			}
+		}
+	}
+	return out
+}
+
 // TraitDesc define a trait-- this is exposed for template use.
 type TraitDesc struct {
 	Name     string
